@@ -231,8 +231,10 @@ func famBIP32(c *mon.Ctx) func(k *mon.Case) {
 		if depth >= 2 && r.Chance(1, 3) {
 			grindAt = r.Intn(depth - 1)
 		}
+		parentKey := got
 		for step := 0; step < len(path); step++ {
 			idx := path[step]
+			parentKey = got
 			if step == grindAt {
 				start := r.Uint32()
 				for t := uint32(0); t < 4000; t++ {
@@ -302,6 +304,43 @@ func famBIP32(c *mon.Ctx) func(k *mon.Case) {
 		// address of the final key
 		if a, err := got.Address(n); err != nil || a.EncodeAddress() != refaddr.Base58CheckEncode(n.PubKeyHashAddrID, refaddr.Hash160(want.Pub.Compressed())) {
 			k.Failf("bip32:Address", "err=%v", err)
+		}
+		// SetNet re-targets one key only: its parent, its neutered copy, later keys and the registered network parameters
+		// keep their own version bytes
+		{
+			o := nets[r.Intn(len(nets))]
+			parentStr := parentKey.String()
+			pubCopy, _ := got.Neuter()
+			pubStr := pubCopy.String()
+			idsN := [2][4]byte{n.HDPrivateKeyID, n.HDPublicKeyID}
+			idsO := [2][4]byte{o.HDPrivateKeyID, o.HDPublicKeyID}
+			got.SetNet(o)
+			wantO := *want
+			wantO.Version = o.HDPrivateKeyID
+			if got.String() != wantO.String() || !got.IsForNet(o) {
+				k.Failf("bip32:SetNet:self", "after SetNet(%s): %s, want %s", o.Name, got.String(), wantO.String())
+			}
+			if parentKey != got && parentKey.String() != parentStr {
+				k.Failf("bip32:SetNet:changed-parent", "SetNet(%s) on a child changed its parent from %s to %s", o.Name, parentStr, parentKey.String())
+			}
+			if pubCopy.String() != pubStr {
+				k.Failf("bip32:SetNet:changed-neutered-copy", "SetNet(%s) changed the neutered copy from %s to %s", o.Name, pubStr, pubCopy.String())
+			}
+			if [2][4]byte{n.HDPrivateKeyID, n.HDPublicKeyID} != idsN || [2][4]byte{o.HDPrivateKeyID, o.HDPublicKeyID} != idsO {
+				k.Failf("bip32:SetNet:changed-network-parameters", "SetNet(%s) rewrote registered HD version bytes: %x/%x now %x/%x", o.Name, idsN[0], idsN[1], n.HDPrivateKeyID, n.HDPublicKeyID)
+				n.HDPrivateKeyID, n.HDPublicKeyID = idsN[0], idsN[1]
+				o.HDPrivateKeyID, o.HDPublicKeyID = idsO[0], idsO[1]
+			}
+			if fresh, err := hdkeychain.NewMaster(seed, n); err == nil {
+				if wm, werr := refaddr.Master(seed, n.HDPrivateKeyID); werr == nil && fresh.String() != wm.String() {
+					k.Failf("bip32:SetNet:changed-later-keys", "a master key created after SetNet(%s) serializes as %s, want %s", o.Name, fresh.String(), wm.String())
+				}
+			}
+			got.SetNet(n)
+			if got.String() != want.String() {
+				k.Failf("bip32:SetNet:back", "after SetNet back to %s: %s, want %s", n.Name, got.String(), want.String())
+			}
+			k.Count("bip32.setnet", 1)
 		}
 		for m := 0; m < 4; m++ {
 			s := xprv
